@@ -2,7 +2,7 @@
 # usage: tools/eval_benign_dir.sh Cxx [round]   evaluates /tmp/ben/Cxx/_out/change_N.diff
 p=$1; r=${2:-b1}
 for n in 1 2 3 4; do
-  d=/tmp/ben/$p/_out
+  d=${BEN_BASE:-/tmp/ben}/$p/_out
   [ -f $d/change_$n.diff ] || continue
   /venv/bin/python /verif/tools/eval_benign.py $p $d $n $p-$r-$n 2>&1 | /venv/bin/python -c "
 import sys,json
